@@ -21,7 +21,11 @@ from .cfg import Node
 from .dataflow import Program
 from .loader import FuncInfo
 
-UNKNOWN = "<unknown>"
+class Sym(str):
+    """A symbolic (non-literal) value named by a rule, e.g. Sym("BASE"); compares equal to the plain string."""
+
+
+UNKNOWN = Sym("<unknown>")
 Atom = Callable[[ast.AST, frozenset], "bool | None"]
 
 
@@ -50,6 +54,7 @@ class Decider:
         self.max_depth = max_depth
         # qualnames of one-argument repo functions kept symbolic: f(x) evaluates to ("call", qual, value of x)
         self.symbolic = symbolic or set()
+        self._cur: tuple | None = None
         # value_leaf(fi, expr, aliases) -> hashable | None: lets a rule name non-constant results (e.g. "element.tight")
         self.value_leaf = value_leaf
 
@@ -57,10 +62,10 @@ class Decider:
     def ev(self, fi: FuncInfo, e: ast.AST | None, env: dict, benv: dict, aliases: frozenset, depth: int) -> frozenset:
         if e is None:
             return frozenset({UNKNOWN})
-        if self.value_leaf is not None:
+        if self.value_leaf is not None and not (isinstance(e, ast.Name) and e.id in env):
             v = self.value_leaf(fi, e, aliases)
             if v is not None:
-                return frozenset({v})
+                return frozenset({Sym(v) if type(v) is str else v})
         if isinstance(e, ast.Constant):
             return frozenset({e.value})
         if isinstance(e, ast.Name):
@@ -68,11 +73,34 @@ class Decider:
                 return env[e.id]
             if e.id in benv:
                 return frozenset({benv[e.id]})
+            if self._cur is not None:
+                ex = expand_expr(self.prog, fi, e, self._cur[1], depth=1) if self._cur[0] is fi else e
+                if isinstance(ex, ast.Constant):
+                    return frozenset({ex.value})
             return frozenset({UNKNOWN})
         if isinstance(e, ast.Attribute):
             k = _chain(e)
             if k is not None and k in env:
                 return env[k]
+        if isinstance(e, ast.BinOp) and isinstance(e.op, ast.Add):
+            ls, rs = self.ev(fi, e.left, env, benv, aliases, depth), self.ev(fi, e.right, env, benv, aliases, depth)
+            if len(ls) * len(rs) <= 16:
+                return frozenset(_cat(l, r) for l in ls for r in rs)
+        if isinstance(e, ast.JoinedStr):
+            parts: list[frozenset] = []
+            for v in e.values:
+                if isinstance(v, ast.Constant):
+                    parts.append(frozenset({v.value}))
+                elif isinstance(v, ast.FormattedValue) and v.format_spec is None and v.conversion == -1:
+                    parts.append(self.ev(fi, v.value, env, benv, aliases, depth))
+                else:
+                    parts.append(frozenset({UNKNOWN}))
+            acc: frozenset = frozenset({""})
+            for p in parts:
+                if len(acc) * len(p) > 16:
+                    return frozenset({UNKNOWN})
+                acc = frozenset(_cat(a, b) for a in acc for b in p)
+            return acc
         if isinstance(e, ast.IfExp):
             t = bool_eval(e.test, self._atom(benv, aliases))
             if t is True:
@@ -101,6 +129,16 @@ class Decider:
             v = self.atom(leaf, aliases)
             if v is None and isinstance(leaf, ast.Name) and leaf.id in benv:
                 return benv[leaf.id]
+            if v is None and self._cur is not None and not isinstance(leaf, ast.Name) \
+                    and any(isinstance(x, ast.Name) for x in ast.walk(leaf)):
+                # read through single-assignment temporaries (k = len(xs) - 1; i == k)
+                fi, node = self._cur
+                try:
+                    ex = expand_expr(self.prog, fi, leaf, node)
+                except Exception:  # noqa: BLE001
+                    return None
+                if ast.dump(ex) != ast.dump(leaf):
+                    v = bool_eval(ex, lambda l2: self.atom(l2, aliases))
             return v
         return atom
 
@@ -132,6 +170,7 @@ class Decider:
         while stack and budget > 0:
             budget -= 1
             n, env, benv, outs, seen, aliases = stack.pop()
+            self._cur = (fi, n)
             env = {**env, "__aliases__": aliases}
             if len(seen) > 1 and stop is not None and stop(n):
                 results.append((n, env, benv, outs))
@@ -149,6 +188,8 @@ class Decider:
                     if isinstance(tg, ast.Name):
                         v = self.ev(fi, a.value, env, benv, aliases, depth)
                         env = {**env, tg.id: v}
+                        # the name is rebound: it no longer denotes what it was an alias of
+                        aliases = frozenset(al for al in aliases if al.partition("=")[2] != tg.id and not al.partition("=")[2].startswith(tg.id + "."))
                         b = bool_eval(a.value, self._atom(benv, aliases))
                         benv = {k: x for k, x in benv.items() if k != tg.id}
                         if b is not None:
@@ -211,6 +252,17 @@ class Decider:
         return frozenset(out)
 
 
+def _cat(a, b):
+    """Concatenation of two symbolic string values; constants fold, "" is the unit."""
+    if a == "":
+        return b
+    if b == "":
+        return a
+    if type(a) is str and type(b) is str:
+        return a + b
+    return ("cat", a, b)
+
+
 def _chain(e: ast.AST) -> str | None:
     parts = []
     while isinstance(e, ast.Attribute):
@@ -243,6 +295,7 @@ class LoopFacts:
     """What a `for` loop offers for telling the first (and last) iteration apart:
       flags  - local names that hold a constant on the first iteration and the opposite constant on all later ones
                (initialised before the loop, overwritten on every path through the body)
+      latches - like flags, but flipped only on some paths ("no line has been emitted yet")
       index  - names bound to the 0-based index of enumerate(X)
       seq    - text of the iterated sequence X (for `index == len(X) - 1`)"""
 
@@ -252,6 +305,7 @@ class LoopFacts:
         self.flags: dict[str, bool] = {}
         self.index: set[str] = set()
         self.seq: str | None = None
+        self.seq_forms: set[str] = set()
         body = flow.loop_body_nodes(head)
         st = head.ast
         it = st.iter
@@ -265,7 +319,12 @@ class LoopFacts:
                 if not stored:
                     self.index.add(name)
                     self.seq = ast.unparse(it.args[0])
+                    try:
+                        self.seq_forms = {self.seq, ast.unparse(expand_expr(prog, fi, it.args[0], head))}
+                    except Exception:  # noqa: BLE001
+                        self.seq_forms = {self.seq}
         # flags
+        self.latches: dict[str, bool] = {}  # name -> initial value, for booleans that flip (at some point) inside the loop and never back
         cands: dict[str, list[Node]] = {}
         for n in body:
             if n.kind == "stmt" and isinstance(n.ast, ast.Assign) and len(n.ast.targets) == 1 and isinstance(n.ast.targets[0], ast.Name) \
@@ -288,9 +347,55 @@ class LoopFacts:
             inner = next(iter(inner_vals))
             if outer_vals != {not inner}:
                 continue
+            self.latches[name] = not inner
             # overwritten on every complete trip through the body (a `continue` that skips it would keep "first" alive)
             if all(flow.cfg.path_avoiding(e, head, set(nodes)) is None for e in entries):
                 self.flags[name] = not inner  # value on the first iteration
+
+    # the comparison forms are decided by their truth table over small loops: names of `index` range over 0..n-1,
+    # len(X) of the iterated sequence is n
+    def _table(self, e: ast.AST) -> str | None:
+        """"first" / "notfirst" / "last" / "notlast" if the comparison holds exactly on those iterations."""
+        if not isinstance(e, ast.Compare) or len(e.ops) != 1:
+            return None
+
+        class Bad(Exception):
+            pass
+
+        def ev(x: ast.AST, i: int, n: int) -> int:
+            if isinstance(x, ast.Constant) and isinstance(x.value, int) and not isinstance(x.value, bool):
+                return x.value
+            if isinstance(x, ast.Name) and x.id in self.index:
+                return i
+            if isinstance(x, ast.Call) and isinstance(x.func, ast.Name) and x.func.id == "len" and len(x.args) == 1 \
+                    and ast.unparse(x.args[0]) in self.seq_forms:
+                return n
+            if isinstance(x, ast.BinOp) and isinstance(x.op, (ast.Add, ast.Sub)):
+                a, b = ev(x.left, i, n), ev(x.right, i, n)
+                return a + b if isinstance(x.op, ast.Add) else a - b
+            raise Bad
+
+        ops = {ast.Eq: lambda a, b: a == b, ast.GtE: lambda a, b: a >= b, ast.LtE: lambda a, b: a <= b, ast.Gt: lambda a, b: a > b,
+               ast.Lt: lambda a, b: a < b, ast.NotEq: lambda a, b: a != b}
+        f = ops.get(type(e.ops[0]))
+        if f is None or not any(isinstance(x, ast.Name) and x.id in self.index for x in ast.walk(e)):
+            return None
+        rows = []
+        try:
+            for n in range(1, 6):
+                for i in range(n):
+                    rows.append((i, n, f(ev(e.left, i, n), ev(e.comparators[0], i, n))))
+        except Bad:
+            return None
+        if all(v == (i == 0) for i, n, v in rows):
+            return "first"
+        if all(v == (i != 0) for i, n, v in rows):
+            return "notfirst"
+        if all(v == (i == n - 1) for i, n, v in rows):
+            return "last"
+        if all(v == (i != n - 1) for i, n, v in rows):
+            return "notlast"
+        return None
 
     def first_atom(self, first: bool):
         def atom(leaf: ast.AST, _aliases: frozenset = frozenset()) -> bool | None:
@@ -299,68 +404,76 @@ class LoopFacts:
                     return self.flags[leaf.id] if first else not self.flags[leaf.id]
                 if leaf.id in self.index:
                     return not first
-            if isinstance(leaf, ast.Compare) and len(leaf.ops) == 1:
-                l, r, op = leaf.left, leaf.comparators[0], leaf.ops[0]
-                if isinstance(r, ast.Name) and r.id in self.index and isinstance(l, ast.Constant):
-                    l, r = r, l
-                    op = {ast.Lt: ast.Gt, ast.Gt: ast.Lt, ast.LtE: ast.GtE, ast.GtE: ast.LtE}.get(type(op), type(op))()
-                if isinstance(l, ast.Name) and l.id in self.index and isinstance(r, ast.Constant) and isinstance(r.value, int):
-                    k = r.value
-                    table = {(ast.Eq, 0): True, (ast.NotEq, 0): False, (ast.Gt, 0): False, (ast.GtE, 1): False, (ast.Lt, 1): True, (ast.LtE, 0): True}
-                    v = table.get((type(op), k))
-                    if v is not None:
-                        return v if first else not v
+            t = self._table(leaf)
+            if t == "first":
+                return first
+            if t == "notfirst":
+                return not first
             return None
         return atom
 
     def last_atom(self, last: bool):
-        """index == len(X) - 1 and its equivalent spellings."""
-        def lenx(e: ast.AST) -> bool:
-            return isinstance(e, ast.Call) and isinstance(e.func, ast.Name) and e.func.id == "len" and len(e.args) == 1 \
-                and self.seq is not None and ast.unparse(e.args[0]) == self.seq
-
-        def idx_plus(e: ast.AST) -> int | None:
-            if isinstance(e, ast.Name) and e.id in self.index:
-                return 0
-            if isinstance(e, ast.BinOp) and isinstance(e.op, (ast.Add, ast.Sub)) and isinstance(e.left, ast.Name) and e.left.id in self.index \
-                    and isinstance(e.right, ast.Constant) and isinstance(e.right.value, int):
-                return e.right.value if isinstance(e.op, ast.Add) else -e.right.value
-            return None
-
-        def len_plus(e: ast.AST) -> int | None:
-            if lenx(e):
-                return 0
-            if isinstance(e, ast.BinOp) and isinstance(e.op, (ast.Add, ast.Sub)) and lenx(e.left) and isinstance(e.right, ast.Constant) \
-                    and isinstance(e.right.value, int):
-                return e.right.value if isinstance(e.op, ast.Add) else -e.right.value
-            return None
-
         def atom(leaf: ast.AST, _aliases: frozenset = frozenset()) -> bool | None:
-            if isinstance(leaf, ast.Compare) and len(leaf.ops) == 1:
-                l, r, op = leaf.left, leaf.comparators[0], type(leaf.ops[0])
-                a, b = idx_plus(l), len_plus(r)
-                if a is None or b is None:
-                    a2, b2 = idx_plus(r), len_plus(l)
-                    if a2 is None or b2 is None:
-                        return None
-                    a, b = a2, b2
-                    op = {ast.Lt: ast.Gt, ast.Gt: ast.Lt, ast.LtE: ast.GtE, ast.GtE: ast.LtE}.get(op, op)
-                # index + a  OP  len + b   <=>   index OP len + (b - a); index ranges over 0 .. len-1
-                d = b - a
-                v = None
-                if op is ast.Eq and d == -1:
-                    v = True
-                elif op is ast.NotEq and d == -1:
-                    v = False
-                elif op is ast.Lt and d == -1:
-                    v = False
-                elif op is ast.GtE and d == -1:
-                    v = True
-                elif op is ast.LtE and d == -2:
-                    v = False
-                elif op is ast.Gt and d == -2:
-                    v = True
-                if v is not None:
-                    return v if last else not v
+            t = self._table(leaf)
+            if t == "last":
+                return last
+            if t == "notlast":
+                return not last
             return None
         return atom
+
+
+# ------------------------------------------------------------------------------------------------------------------
+def expand_expr(prog: Program, fi: FuncInfo, expr: ast.AST, node: Node, depth: int = 4, strict: bool = True) -> ast.AST:
+    """`expr` with single-assignment temporaries replaced by their defining expressions (a copy; the tree is not
+    touched). `k = len(xs) - 1 ... i == k` reads as `i == len(xs) - 1`. A name is replaced only if exactly one
+    definition reaches `node`, it is a plain assignment, and everything that definition reads still has the same
+    reaching definitions at `node` (nothing it depends on was rebound or mutated in between). strict=False drops the
+    last condition: the *shape* of the defining expression is then right, the values of its variables may be older."""
+    from .inline import clone
+
+    flow = prog.flow(fi)
+
+    def same_inputs(value: ast.AST, at_def: Node) -> bool:
+        for y in ast.walk(value):
+            if isinstance(y, ast.Name) and isinstance(y.ctx, ast.Load):
+                a = {d.id for d in flow.reaching(at_def, y.id)}
+                b = {d.id for d in flow.reaching(node, y.id)}
+                if a != b:
+                    return False
+        return True
+
+    def go(e: ast.AST, d: int) -> ast.AST:
+        if isinstance(e, ast.Name) and isinstance(e.ctx, ast.Load) and d > 0:
+            defs = flow.reaching(node, e.id)
+            if len(defs) == 1 and defs[0].kind == "assign" and defs[0].value is not None and not defs[0].weak \
+                    and not isinstance(defs[0].value, (ast.Lambda, ast.ListComp, ast.DictComp, ast.SetComp, ast.GeneratorExp, ast.Yield, ast.Await)) \
+                    and (not strict or same_inputs(defs[0].value, defs[0].node)):
+                return go(clone(defs[0].value), d - 1)
+            if len(defs) == 1 and defs[0].kind == "unpack" and isinstance(defs[0].value, ast.Tuple) and defs[0].index is not None \
+                    and defs[0].index < len(defs[0].value.elts) and not any(isinstance(x, ast.Starred) for x in defs[0].value.elts) \
+                    and isinstance(defs[0].node.ast, ast.Assign) and isinstance(defs[0].node.ast.targets[0], ast.Tuple) \
+                    and len(defs[0].node.ast.targets[0].elts) == len(defs[0].value.elts):
+                # a, b = E1, E2
+                val = defs[0].value.elts[defs[0].index]
+                if not strict or same_inputs(val, defs[0].node):
+                    return go(clone(val), d - 1)
+            if not defs:
+                # module-level constant of a literal
+                r = prog.repo.lookup(e.id, fi.module, fi)
+                from .loader import ConstInfo
+                if isinstance(r, ConstInfo) and len(r.assigns) == 1:
+                    v = getattr(r.assigns[0], "value", None)
+                    if isinstance(v, ast.Constant):
+                        return clone(v)
+            return e
+        if isinstance(e, (ast.Lambda, ast.ListComp, ast.DictComp, ast.SetComp, ast.GeneratorExp)):
+            return e
+        for fld, val in ast.iter_fields(e):
+            if isinstance(val, ast.AST):
+                setattr(e, fld, go(val, d))
+            elif isinstance(val, list):
+                setattr(e, fld, [go(v, d) if isinstance(v, ast.AST) else v for v in val])
+        return e
+
+    return go(clone(expr), depth)
